@@ -62,27 +62,24 @@ Theorem C39_goaway_roundtrip : forall last st rest cs,
 Proof. exact goaway_roundtrip. Qed.
 Print Assumptions C39_goaway_roundtrip.
 
-(* Allocation is not bounded by the input (known finding 2): a 12-byte block makes
-   parseHeaderValueBlock request a buffer of 2^26 bytes (make([]byte, length) with the 32-bit length field). *)
-Theorem C39_alloc_refuted :
-  exists c s, parse_block rd_plain w_alloc = PIo c s (2^26) /\ blen w_alloc = 12.
-Proof. exact alloc_refuted_lemma. Qed.
-Print Assumptions C39_alloc_refuted.
+(* alloc_bounded (after the /repo fix 604820b; it was refuted before: a 12-byte block requested 2^26 bytes):
+   for ANY reader (plain bytes or the header decompressor) and ANY input, every buffer parseHeaderValueBlock
+   asks for has at most 4096 bytes (mx is the largest request in the model's allocation log). *)
+Theorem C39_alloc_bounded : forall (T : Type) (rd : Z -> T -> rres T) (s : T),
+  mx_of (parse_block rd s) <= 4096.
+Proof. exact @parse_block_mx. Qed.
+Print Assumptions C39_alloc_bounded.
+Example C39_alloc_example :
+  exists c s, parse_block rd_plain w_alloc = PIo c s 4096 /\ blen w_alloc = 12.
+Proof. exact alloc_example_lemma. Qed.
 
-(* Frame boundaries are lost (known finding 3): the length field of fixed-size control frames is ignored.
-   An RST_STREAM declaring length 12 is returned after 16 bytes instead of 8+12 and the next frame is
-   read from the middle of its payload. *)
-Theorem C39_boundaries_refuted :
-  hd (VZ 0) (read_stream 8 (init_state w_bound [])) = VL [VL [VZ 3; VZ 3; VZ 0; VZ 12; VZ 1; VZ 5]; VZ 16]
-  /\ bounds_ok w_bound 0 (read_stream 8 (init_state w_bound [])) = false.
-Proof. exact boundaries_refuted_lemma. Qed.
-Print Assumptions C39_boundaries_refuted.
-
-(* ... and for a SYN_STREAM with length 4 the byte limit handed to the header decompressor,
-   uint32(length - 10), wraps to 4294967290, so the decompressor may swallow the following frames. *)
-Theorem C39_underflow_limit : u32 (4 - 10) = 4294967290.
-Proof. exact underflow_lemma. Qed.
-Print Assumptions C39_underflow_limit.
+(* boundaries, former witnesses (fixed in 604820b): an RST_STREAM declaring length 12 and a SYN_STREAM
+   declaring length 4 (uint32(4 - 10) used to be handed to the decompressor) are refused with
+   InvalidControlFrame after the 8 header bytes; reading stops (BFE closes the session on any ReadFrame error). *)
+Example C39_boundaries_rst12 : read_stream 8 (init_state w_bound []) = [VL [v_serr 14 0; VZ 8]].
+Proof. exact bound_example_lemma. Qed.
+Example C39_boundaries_syn4 : read_stream 8 (init_state w_short []) = [VL [v_serr 14 0; VZ 8]].
+Proof. exact short_example_lemma. Qed.
 
 (* Length fields (no wrap).  The 24-bit length shares a 32-bit word with the flags byte
    (uint32(flags)<<24 | length).  For every flags byte and every length below 2^24 the written word decodes
@@ -108,9 +105,9 @@ Theorem C39_data_frame_too_long_rejected : forall sid flags len,
 Proof. exact data_header_rejects. Qed.
 Print Assumptions C39_data_frame_too_long_rejected.
 
-(* The control-frame writers have no such check (known finding 4): with a payload of 2^24 bytes, or a
-   SETTINGS frame with 2^21 entries, the length runs into the flags byte. *)
-Theorem C39_control_length_wraps :
+(* Beyond the bound the word would wrap (length 2^24 reads back as flags 1, length 0), which is why the
+   writers now refuse such frames (SETTINGS with more than 1024 entries, header blocks of 2^24 - 10 / - 4 bytes
+   and more; see write_frame). *)
+Example C39_control_length_would_wrap :
   lenword 0 (2^24) / 2^24 = 1 /\ lenword 0 (2^24) mod 2^24 = 0 /\ lenword 0 (u32 (2097152 * 8 + 4)) / 2^24 = 1.
 Proof. exact control_length_wraps. Qed.
-Print Assumptions C39_control_length_wraps.
